@@ -60,6 +60,13 @@ static size_t v_w_setEndOfPropertyTLV(void *b, size_t off);
 #include "v_nocheck_push.h"
 #include "v_state_builder.h"
 
+/* the value of each property is proved per writer for all attribute values (harness tlv_writers, same specification
+ * function); re-checking it on the assembled frame is optional (V_HELLO_VALUES) - with it a wireless Hello needs 47 GB */
+#ifdef V_HELLO_VALUES
+#define V_HELLO_VALUE_CHECK(b, off, type) v_tlv_value_check((const uint8_t *)(b) + (off) + 2, (type), ((const uint8_t *)(b))[(off) + 1])
+#else
+#define V_HELLO_VALUE_CHECK(b, off, type) do { } while (0)
+#endif
 #define WBODY(call, type, abs) \
     V_REQUIRE("C02.hello.contiguous: properties are laid out back to back", off == g_hc.end && !g_hc.ended); \
     V_REQUIRE("C02.hello.no-type-twice", (g_hc.seen & V_BIT(type)) == 0); \
@@ -68,7 +75,7 @@ static size_t v_w_setEndOfPropertyTLV(void *b, size_t off);
         V_REQUIRE("C04.writer-absent-only-when-unavailable: a property is omitted only when the platform does not provide it", abs); \
     } else { \
         V_REQUIRE("C02.hello.legal-length: well-formed property of legal length", TLV_WRITTEN(b, off, r, type)); \
-        v_tlv_value_check((const uint8_t *)b + off + 2, (type), ((const uint8_t *)b)[off + 1]); \
+        V_HELLO_VALUE_CHECK(b, off, type); \
         if (g_hc.count == 0) g_hc.first = (type); \
         g_hc.count++; g_hc.seen |= V_BIT(type); g_hc.end = off + r; \
     } \
@@ -109,6 +116,9 @@ void h_answer_hello(void) {
 #endif
 #ifdef V_SSIDLEN
     g_cfg.ssid_len = V_SSIDLEN;
+#endif
+#ifdef V_BSSIDFAIL
+    g_cfg.bssid_fail = V_BSSIDFAIL;   /* whether the BSSID property is present decides every later offset: enumerated too */
 #endif
     g_ctx = &v_ctx_obj;
     g_k = in.gk;
